@@ -402,6 +402,32 @@ Section Proofs.
     - (* OReplay *)
       destruct m as [|tr|]; try discriminate. destruct tr; [|discriminate].
       inversion Hs; subst. split; [exact HD|]. apply opened_inv. exact HD.
+    - (* OCommitFails *)
+      destruct m as [| |v]; try discriminate.
+      destruct (v_phase B W v) eqn:EP; try discriminate.
+      destruct (v_chan B W v) as [t0|] eqn:EC; try discriminate.
+      destruct (adjust (v_dbr B W v) t0); [|discriminate].
+      inversion Hs; subst; clear Hs. split; [exact HD|].
+      destruct HV as (V1 & V2 & V3 & V4 & V5 & V6 & V7 & V8 & V9). rewrite EP in V7.
+      assert (Hall : allb d (mkVol B W (v_q B W v) (v_com B W v) (v_sync B W v) (v_dbr B W v) (v_ws B W v)
+                               (v_top B W v) (v_re B W v) None PIdle (v_conf B W v) (v_added B W v)) = allb d v) by reflexivity.
+      cbn [LedgerCrash.s_d LedgerCrash.s_m]. unfold vinv. rewrite Hall. simpl.
+      split9; [> exact V1 | exact V2 | exact V3 | exact V4 | exact V5 | exact V6 | exact V7 | exact V8 | exact I].
+    - (* OFlushFails *)
+      destruct m as [| |v]; try discriminate.
+      destruct (v_sync B W v); try discriminate. destruct (1 <=? _); [|discriminate].
+      inversion Hs; subst. split; [exact HD|exact HV].
+  Qed.
+
+  (* a failed transaction leaves the disk exactly as it was *)
+  Lemma failed_tx_durable_unchanged : forall s s',
+    step s (OCommitFails B) = Some s' \/ step s (OFlushFails B) = Some s' -> s_d B W s' = s_d B W s.
+  Proof.
+    intros [d m] s' [Hs|Hs]; unfold LedgerCrash.step, LedgerCrash.upd_v in Hs; cbn [LedgerCrash.s_d LedgerCrash.s_m] in Hs;
+      destruct m as [| |v]; try discriminate.
+    - destruct (v_phase B W v); try discriminate. destruct (v_chan B W v); try discriminate.
+      destruct (adjust _ _); [|discriminate]. inversion Hs; reflexivity.
+    - destruct (v_sync B W v); try discriminate. destruct (1 <=? _); [|discriminate]. inversion Hs; reflexivity.
   Qed.
 
   Lemma inv_step' : forall s o, Inv s -> Inv (step' s o).
